@@ -22,7 +22,15 @@ import (
 
 type Rand struct{ s uint64 }
 
-func NewRand(seed uint64) *Rand { return &Rand{s: seed*0x9E3779B97F4A7C15 + 0x1234567} }
+// NewRand: the seed is scrambled first, so that neighbouring seeds do not land one step apart on the same
+// splitmix sequence (which would make their streams run in lockstep).
+func NewRand(seed uint64) *Rand {
+	z := seed + 0x632BE59BD9B4E019
+	z = (z ^ (z >> 30)) * 0xBF58476D1CE4E5B9
+	z = (z ^ (z >> 27)) * 0x94D049BB133111EB
+	z ^= z >> 31
+	return &Rand{s: z ^ 0x1234567}
+}
 func (r *Rand) U64() uint64 {
 	r.s += 0x9E3779B97F4A7C15
 	z := r.s
